@@ -291,6 +291,46 @@ def run_case(case):
                               'shows peak %.2f, folded peak of that wall is '
                               '%.2f' % (dnum + 1, n_last, pk, f.duct[g][0]),
                               k2)
+            # peak pin tables: the row labelled with an assembly shows that
+            # assembly's peak (value, pin) - rows exist exactly for the
+            # assemblies that have a pin model
+            if any('pin' in a._peak for a in r.assemblies):
+                for (what, loc, col, name) in (('clad', 'mw', 7, 'clad_mw'),
+                                               ('fuel', 'cl', 10,
+                                                'fuel_cl')):
+                    try:
+                        with drive.quiet():
+                            ptab = dassh.table.PeakPinTempTable(
+                                what, loc).generate(r, None)
+                    except Exception as e:
+                        res.tag('pin_table_failed:' + type(e).__name__)
+                        continue
+                    prow = {}
+                    for ln in ptab.splitlines():
+                        w = ln.split()
+                        if len(w) >= 11 and re.match(r'^\d+$', w[0]):
+                            prow[int(w[0])] = w
+                    want = [i + 1 for i, a in enumerate(r.assemblies)
+                            if 'pin' in a._peak]
+                    res.check('K6_peak_pin_table_rows', sorted(prow) == want,
+                              'peak %s table has rows for assemblies %r, '
+                              'assemblies with a pin model are %r'
+                              % (name, sorted(prow), want), key)
+                    for i, a in enumerate(r.assemblies):
+                        f = folds[id(a)]
+                        if i + 1 not in prow or name not in f.pin:
+                            continue
+                        w = prow[i + 1]
+                        fv, rows_ = f.pin[name]
+                        ok = abs(float(w[col]) - tT(fv)) < 0.06 and any(
+                            int(w[2]) == int(rr[2]) for _z, rr in rows_)
+                        res.check('K6_peak_pin_table_rows', ok,
+                                  'peak %s table row of assembly %d shows '
+                                  '%s K at pin %s; folded peak %.2f K at '
+                                  'pin(s) %r' % (name, i + 1, w[col], w[2],
+                                                 tT(fv), [int(rr[2]) for
+                                                          _z, rr in rows_]),
+                                  key)
             for a in r.assemblies:
                 for rg in a.region:
                     res.tag('region:' + ('rodded' if rg.is_rodded
